@@ -53,11 +53,17 @@ impl NameMap {
         intrinsics_are_reserved: bool,
         parameter_globals: &[GlobalId],
     ) -> NameMap {
-        // Names that more than one parameter global wants to use
+        // Names of parameter globals that another global also uses
+        // Inside a function the parameter would hide a constant of that name from any namespace
         let mut parameter_global_names: HashMap<&str, usize> = HashMap::new();
-        for id in parameter_globals {
-            let name = module.global_registry[id.0 as usize].name.node.as_str();
-            *parameter_global_names.entry(name).or_default() += 1;
+        if !parameter_globals.is_empty() {
+            for def in &module.global_registry {
+                if !def.is_intrinsic {
+                    *parameter_global_names
+                        .entry(def.name.node.as_str())
+                        .or_default() += 1;
+                }
+            }
         }
 
         let mut name_map = NameMap {
